@@ -50,12 +50,12 @@ contract("BloomFilter._get_optimized_params", kind="classmethod", contexts=["Blo
                   ("hashes_formula", "result[1] == bloom_k(estimated_elements, result[2])"),
                   ("at_least_one_hash", "result[1] >= 1")])
 
-contract("BloomFilter._set_values", contexts=["BloomFilter"], properties=["C01", "C12", "C13", "C05"],
+contract("BloomFilter._set_values", contexts=["BloomFilter", "CountingBloomFilter"], properties=["C01", "C12", "C13", "C05"],
          params={"est_els": "int", "fpr": "float", "n_hashes": "int", "n_bits": "int", "hash_func": "opt[hashfunc]"},
-         requires=[("bits_below_2_53", "0 <= n_bits < 2**53")],
+         requires=[("bits_below_2_53", "0 <= n_bits < 2**53"), ("bits_per_element", "self._bits_per_elm > 0")],
          modifies=["self._est_elements", "self._fpr", "self._bloom_length", "self._hash_func", "self._els_added",
                    "self._number_hashes", "self._num_bits"],
-         ensures=["self._est_elements == est_els", "self._fpr == fpr", "self._bloom_length == cdiv(n_bits, 8)",
+         ensures=["self._est_elements == est_els", "self._fpr == fpr", ("length_from_bits_per_element", "self._bloom_length == ceil_(n_bits / self._bits_per_elm)"),
                   "self._els_added == 0", "self._number_hashes == n_hashes", "self._num_bits == n_bits",
                   ("hash_function_kept_or_default",
                    "self._hash_func == (hash_func if hash_func is not None else default_fnv_1a)")])
